@@ -24,6 +24,7 @@ import PrqlModel.Drv.Anchor
 import PrqlModel.Drv.InferSorts
 import PrqlModel.Drv.Flatten
 import PrqlModel.Drv.CteOrder
+import PrqlModel.Drv.Preprocess
 namespace Drv
 
 def handlers : List (List String → Option String) := [
@@ -46,7 +47,8 @@ def handlers : List (List String → Option String) := [
   Drv.Anchor.handle,
   Drv.InferSorts.handle,
   Drv.Flatten.handle,
-  Drv.CteOrder.handle
+  Drv.CteOrder.handle,
+  Drv.Preprocess.handle
 ]
 
 def handle (fields : List String) : String :=
